@@ -4,7 +4,7 @@
    check on the shared transcript, the verdict is the conjunction, an error ends the loop.  Generic in the scheme:
    commitments, prover items, proofs and the transcript state are parameters. *)
 From Coq Require Import List Arith NArith Bool.
-From PC Require Import Base.Field Base.Result Base.Poly.
+From PC Require Import Base.Field Base.Result Base.Poly Base.OrdMap Schemes.LC.
 Import ListNotations.
 Local Open Scope nat_scope.
 
@@ -42,8 +42,8 @@ Section DefaultBatch.
   Definition groups (qs : list query) : list (N * (point * list N)) :=
     fold_left (fun m q => insert_group (fst (snd q)) (snd (snd q)) (fst q) m) qs [].
 
-  Fixpoint lookup {A} (l : N) (m : list (N * A)) : option A :=
-    match m with [] => None | (k, a) :: t => if N.eqb k l then Some a else lookup l t end.
+  Fixpoint lookup_lab {A} (l : N) (m : list (N * A)) : option A :=
+    match m with [] => None | (k, a) :: t => if N.eqb k l then Some a else lookup_lab l t end.
   (* the map built by collect(): a later entry with the same label replaces an earlier one *)
   Definition label_map {A} (l : list (N * A)) : list (N * A) := rev l.
 
@@ -61,7 +61,7 @@ Section DefaultBatch.
     match labels with
     | [] => Ok ([], [])
     | l :: t =>
-      match lookup l cm with
+      match lookup_lab l cm with
       | None => Err EMissingPolynomial
       | Some c =>
         match lookup_eval l pt ev with
@@ -93,7 +93,7 @@ Section DefaultBatch.
   Fixpoint gather_p (im : list (N * Item)) (labels : list N) : res (list Item) :=
     match labels with
     | [] => Ok []
-    | l :: t => match lookup l im with
+    | l :: t => match lookup_lab l im with
                 | None => Err EMissingPolynomial
                 | Some it => do r <- gather_p im t; Ok (it :: r)
                 end
@@ -110,3 +110,109 @@ Section DefaultBatch.
   Definition default_batch_open (items : list (N * Item)) (qs : list query) (st : St) : res (list Proof * St) :=
     bopen_loop (label_map items) (groups qs) st.
 End DefaultBatch.
+
+(* ---------------- default open_combinations / check_combinations ---------------- *)
+Section DefaultLC.
+  Context {FO : FieldOps}.
+  Variables (Comm Item Proof St : Type).
+  Local Open Scope F_scope.
+
+  Definition pt_cmp : point -> point -> comparison := cmp_list fcmp.
+  Definition pkey := (N * point)%type.
+  Definition pkey_cmp : pkey -> pkey -> comparison := cmp_pair N.compare pt_cmp.
+  Definition q_cmp : query -> query -> comparison := cmp_pair N.compare (cmp_pair N.compare pt_cmp).
+
+  (* BTreeMap of the linear combinations by label *)
+  Definition lcs_map (lcs : list (N * lc)) : list (N * lc) := of_list N.compare lcs.
+
+  (* lc_query_set_to_poly_query_set: the queries of the equations, spread over the polynomials they mention (a BTreeSet) *)
+  Definition lc_qs_to_poly_qs (lcm : list (N * lc)) (qs : list query) : list query :=
+    map fst
+      (fold_left (fun acc q =>
+                    match OrdMap.lookup N.compare (fst q) lcm with
+                    | None => acc
+                    | Some terms =>
+                      fold_left (fun a t => match snd t with TPoly l => insert q_cmp (l, snd q) tt a | TOne => a end) terms acc
+                    end) qs []).
+
+  (* the (polynomial, point) keys in BTreeSet order *)
+  Definition poly_point_keys (pqs : list query) : list pkey :=
+    map fst (fold_left (fun acc q => insert pkey_cmp (fst q, snd (snd q)) tt acc) pqs []).
+
+  Fixpoint lookup_pk (k : pkey) (m : list (pkey * F)) : option F :=
+    match m with [] => None | (k', v) :: t => match pkey_cmp k k' with Eq => Some v | _ => lookup_pk k t end end.
+
+  (* value of a combination from the transmitted polynomial evaluations *)
+  Fixpoint lc_rhs (pev : list (pkey * F)) (pt : point) (terms : lc) (acc : F) : res F :=
+    match terms with
+    | [] => Ok acc
+    | (coeff, TOne) :: t => lc_rhs pev pt t (acc + coeff * 1)
+    | (coeff, TPoly l) :: t =>
+      match lookup_pk (l, pt) pev with
+      | None => Err EMissingEvaluation
+      | Some e => lc_rhs pev pt t (acc + coeff * e)
+      end
+    end.
+
+  (* the loop over the equation queries: None = all claims hold; Some r = the early result *)
+  Fixpoint eqn_loop (lcm : list (N * lc)) (pev eqn_ev : list (pkey * F)) (qs : list query) : option (res bool) :=
+    match qs with
+    | [] => None
+    | (lab, (_, pt)) :: t =>
+      match OrdMap.lookup N.compare lab lcm with
+      | None => eqn_loop lcm pev eqn_ev t
+      | Some terms =>
+        match lookup_pk (lab, pt) eqn_ev with
+        | None => Some (Err EMissingEvaluation)
+        | Some claimed =>
+          match lc_rhs pev pt terms 0 with
+          | Ok actual => if feqb claimed actual then eqn_loop lcm pev eqn_ev t else Some (Ok false)
+          | Err e => Some (Err e)
+          | Panic => Some Panic
+          end
+        end
+      end
+    end.
+
+  Variable check : list Comm -> point -> list F -> Proof -> St -> res (bool * St).
+
+  (* eqn_qs: the equation query set in set order; eqn_ev: the claimed values keyed by (equation label, point);
+     evals: the polynomial evaluations the prover sent (None: unwrap aborts) *)
+  Definition default_check_combinations (lcs : list (N * lc)) (cs : list (N * Comm)) (eqn_qs : list query)
+             (eqn_ev : list (pkey * F)) (proofs : list Proof) (evals : option (list F)) (st : St) : res (bool * St) :=
+    let lcm := lcs_map lcs in
+    let pqs := lc_qs_to_poly_qs lcm eqn_qs in
+    match evals with
+    | None => Panic
+    | Some evs =>
+      let pev := combine (poly_point_keys pqs) evs in
+      match eqn_loop lcm pev eqn_ev eqn_qs with
+      | Some (Ok b) => Ok (b, st)
+      | Some (Err e) => Err e
+      | Some Panic => Panic
+      | None =>
+        default_batch_check Comm Proof St check cs pqs (map (fun kv => (fst (fst kv), snd (fst kv), snd kv)) pev) proofs st
+      end
+    end.
+
+  Variable open : list Item -> point -> St -> res (Proof * St).
+  Variable eval_item : Item -> point -> F.
+
+  (* evaluate_query_set: every queried polynomial must be among the items (expect) *)
+  Fixpoint evaluate_qs (im : list (N * Item)) (pqs : list query) (acc : list (pkey * F)) : res (list (pkey * F)) :=
+    match pqs with
+    | [] => Ok acc
+    | (lab, (_, pt)) :: t =>
+      match lookup_lab lab im with
+      | None => Panic
+      | Some it => evaluate_qs im t (insert pkey_cmp (lab, pt) (eval_item it pt) acc)
+      end
+    end.
+
+  Definition default_open_combinations (lcs : list (N * lc)) (items : list (N * Item)) (eqn_qs : list query) (st : St)
+    : res (list Proof * list F * St) :=
+    let pqs := lc_qs_to_poly_qs (lcs_map lcs) eqn_qs in
+    do pev <- evaluate_qs (label_map items) pqs [];
+    do r <- default_batch_open Item Proof St open items pqs st;
+    Ok (fst r, map snd pev, snd r).
+End DefaultLC.
